@@ -706,6 +706,13 @@ func (c *fnCtx) zeroVal(t types.Type) SymVal {
 		}
 		return v
 	}
+	if arr, ok := t.Underlying().(*types.Array); ok && arr.Len() <= 16 {
+		v := SymVal{K: KTuple, T: t}
+		for i := int64(0); i < arr.Len(); i++ {
+			v.Fs = append(v.Fs, c.zeroVal(arr.Elem()))
+		}
+		return v
+	}
 	return SymVal{K: KOpq, T: t, S: "0"}
 }
 
